@@ -961,6 +961,98 @@ class Model:
         cache[id(fd)] = new
         return new
 
+    def counters(self, fd):
+        """A copy of ``fd`` in which a counter object (`c = itertools.count(n0)`, used
+        only as `next(c)`) is the integer it counts: `c = n0`, and every simple
+        statement that draws a number reads `c` and is followed by `c += 1`."""
+        new = _cp(fd)
+        for p_ in ast.walk(new):
+            for ch in ast.iter_child_nodes(p_):
+                ch._parent = p_
+        cands = {}
+        for n in _walk_same_scope(new):
+            if isinstance(n, (ast.Assign, ast.AnnAssign)) and n.value is not None:
+                tg = n.targets if isinstance(n, ast.Assign) else [n.target]
+                v = n.value
+                if len(tg) == 1 and isinstance(tg[0], ast.Name) and isinstance(v, ast.Call) \
+                        and ast.unparse(v.func) in ("count", "itertools.count") \
+                        and len(v.args) <= 1 and not v.keywords:
+                    cands.setdefault(tg[0].id, []).append(n)
+        cands = {k: v[0] for k, v in cands.items() if len(v) == 1}
+        for name in list(cands):
+            for x in ast.walk(new):
+                if isinstance(x, ast.Name) and x.id == name and isinstance(x.ctx, ast.Load):
+                    par = getattr(x, "_parent", None)
+                    if not (isinstance(par, ast.Call) and isinstance(par.func, ast.Name)
+                            and par.func.id == "next" and par.args == [x]):
+                        cands.pop(name, None)
+                        break
+        # parent links of the copy (needed above): set them first
+        return self._counters_apply(new, fd, cands) if cands else fd
+
+    def _counters_apply(self, new, fd, cands):
+        def draws(st, name):
+            return [x for x in ast.walk(st) if isinstance(x, ast.Call)
+                    and isinstance(x.func, ast.Name) and x.func.id == "next"
+                    and len(x.args) == 1 and isinstance(x.args[0], ast.Name)
+                    and x.args[0].id == name]
+        ok = True
+
+        def rewrite(stmts):
+            nonlocal ok
+            out = []
+            for st in stmts:
+                for fld in ("body", "orelse", "finalbody"):
+                    blk = getattr(st, fld, None)
+                    if isinstance(blk, list) and blk and isinstance(blk[0], ast.stmt) \
+                            and not isinstance(st, (ast.FunctionDef, ast.ClassDef)):
+                        setattr(st, fld, rewrite(blk))
+                for h in getattr(st, "handlers", []):
+                    h.body = rewrite(h.body)
+                if any(st is d for d in cands.values()):
+                    nm = (st.targets[0] if isinstance(st, ast.Assign) else st.target).id
+                    start = st.value.args[0] if st.value.args else ast.Constant(value=0)
+                    out.append(ast.Assign(targets=[ast.Name(id=nm, ctx=ast.Store())],
+                                          value=start, lineno=st.lineno))
+                    continue
+                after = []
+                for nm in cands:
+                    if isinstance(st, (ast.Assign, ast.AnnAssign, ast.Expr, ast.AugAssign)):
+                        ds = draws(st, nm)
+                        if len(ds) > 1:
+                            ok = False
+                        for d in ds:
+                            class R_(ast.NodeTransformer):
+                                def visit_Call(self, x, d=d, nm=nm):
+                                    if x is d:
+                                        return ast.Name(id=nm, ctx=ast.Load())
+                                    self.generic_visit(x)
+                                    return x
+                            st = R_().visit(st)
+                            after.append(ast.AugAssign(
+                                target=ast.Name(id=nm, ctx=ast.Store()), op=ast.Add(),
+                                value=ast.Constant(value=1), lineno=st.lineno))
+                    elif not isinstance(st, (ast.If, ast.For, ast.While, ast.Try, ast.With)) \
+                            and draws(st, nm):
+                        ok = False
+                    elif isinstance(st, (ast.If, ast.While)) and draws(st.test, nm):
+                        ok = False
+                    elif isinstance(st, ast.For) and draws(st.iter, nm):
+                        ok = False
+                out.append(st)
+                out += after
+            return out
+        new.body = rewrite(new.body)
+        if not ok:
+            return fd
+        ast.fix_missing_locations(new)
+        for p_ in ast.walk(new):
+            for ch in ast.iter_child_nodes(p_):
+                ch._parent = p_
+        new._parent = getattr(fd, "_parent", None)
+        new._derived = True
+        return new
+
     def unrolled(self, fd):
         """A copy of ``fd`` in which a loop over a short literal table (`for a, b in
         ((x1, y1), (x2, y2)): BODY`, no break/continue/else) is written out: BODY once
